@@ -204,6 +204,13 @@ Definition case_problem (c : flux_case) (kk : dy) (g : list src) : option (list 
                 (bkg_of (sp + sf) kk (mk_bkgs srcs)) g.
 Definition dy1 : dy := (1%Z, 0%Z).
 
+(* the normal equations in matrix form, G s = A^T y, decided exactly (equivalent to grad s = 0 by
+   C20H_Proofs.grad_gram; k^2 products instead of sums of large rationals over all the rows) *)
+Definition gram_check (rows : list (list Q)) (ys : list Q) (k : nat) (s : list Q) : bool :=
+  let G := gram_l rows k in
+  let r := rhs_l rows ys k in
+  forallb (fun j => Qeq_bool (sumu k (fun j' => Aof G j j' * vof s j')) (vof r j)) (seq 0 k).
+
 (* |c - exact solution|_l <= (sum_j |G^-1 l j|) * (bound on the gradient at c) *)
 Definition within (msum : nat -> Q) (a b : list Q) (tol : Q) : bool :=
   forallb (fun l => C20H_Model.close (vof a l) (vof b l) (msum l * tol)) (seq 0 (length a)).
@@ -240,7 +247,7 @@ Definition check_flux_case (c : flux_case) : bool :=
           (* FULL: the model's solution satisfies the normal equations exactly, flux_fit is within the
              conditioning-scaled tolerance of it *)
           match sol with
-          | Some s => ne_check rows ys k s 0 && within msum impl s tol
+          | Some s => gram_check rows ys k s && within msum impl s tol
           | None => true
           end &&
           (* exact scenes: the rendered fluxes satisfy the normal equations (up to the one rounding per
